@@ -3,6 +3,7 @@ import disp_checks
 import tpl_checks
 import field_checks
 import pass_checks
+import tagged_checks
 
 CORE_A = ["Model/Base.v", "Model/Dispatch.v", "Model/Routing.v", "Model/DispLane.v", "Gen/DispatchSrc.v", "Gen/ConvSrc.v",
           "Proofs/DispatchProofs.v", "Proofs/RoutingProofs.v", "Proofs/SrcObligations.v"]
@@ -50,6 +51,10 @@ def _c15(v, b, tier):
     pass_checks.check_c15(v, b.t1_summary, 60 * SIZES[tier])
 
 
+def _c13(v, b, tier):
+    tagged_checks.check_c13(v, 50 * SIZES[tier])
+
+
 def _c10(v, b, tier):
     tpl_checks.check_c10(v, b.t1_summary, 60 * SIZES[tier], 5)
 
@@ -77,6 +82,12 @@ REGISTRY = {
                     "(0/False, 1/True, '', b'', None) and NewTypes; configured class sets S of 2-7 classes (30% the JSON set, 20% with an int subclass); "
                     "18 probe values incl. 0/False/0.0, 1/True/1.0 and subclass instances; every rotation plus two random permutations of the members; "
                     "non-trivial = union has >= 2 members; distinct = (union, S, value)"},
+    "C13": {"props_file": "Props/C13.v", "files": CORE_A + ["Model/Tagged.v", "Proofs/TemplatesProofs.v", "Proofs/TaggedProofs.v", "Props/C13.v"],
+            "run": _c13, "t1_sections": ["dispatch", "converters"],
+            "rule": "configurations = union of 2-4 of four classes (attrs and dataclass, overlapping field names) x tag generator (class name, dict, "
+                    "prefixed, non-injective) x tag name (incl. names colliding with member fields) x default (none, a member, a class outside) x "
+                    "forbid_extra_keys x converter class x validation mode; per configuration every member instance, a subclass instance, and payload "
+                    "variants (tagged, tag first, tag missing, unknown tag, extra key); every case non-trivial; distinct = (configuration, instance)"},
     "C10": {"props_file": "Props/C10.v", "files": CORE_TPL + ["Props/C10.v"], "run": _c10, "rule": RULE_TPL, "t1_sections": ["gen"]},
     "C07": {"props_file": "Props/C07.v", "files": CORE_A + ["Props/C07.v"], "run": _c07, "rule": RULE_DISP},
     "C08": {"props_file": "Props/C08.v", "files": CORE_A + ["Props/C08.v"], "run": _c08, "rule": RULE_DISP},
